@@ -1119,7 +1119,13 @@ class Spec:
         self.covers = covers or [name]
 
     # -- reference codec
-    def encode(self, values):
+    def encode(self, values, canonical=False):
+        """Reference wire form; canonical=True gives the RFC 4034 6.2 DNSSEC canonical form
+        (names of the types listed there / in RFC 6840 5.1 in lower case) for the plain
+        sequential layouts."""
+        if canonical:
+            return b"".join(f.kind.enc(lower_labels(v) if getattr(f.kind, "canon_lower", False) else v)
+                            for f, v in zip(self.fields, values))
         return b"".join(f.kind.enc(v) for f, v in zip(self.fields, values))
 
     def decode(self, cur):
@@ -1172,7 +1178,11 @@ class Spec:
         return any(f.kind.is_name for f in self.fields)
 
 
-def ref_encode(spec, values):
+def ref_encode(spec, values, canonical=False):
+    if canonical:
+        if type(spec) is not Spec:
+            return spec.encode(values)      # custom layouts carry no name that is lower-cased
+        return spec.encode(values, True)
     return spec.encode(values)
 
 
@@ -1479,7 +1489,7 @@ def _specs():
 
     add(Spec("A", 1, [F("address", IPv4(tail=True))], impl="IN/A"))
     add(Spec("AAAA", 28, [F("address", IPv6(tail=True))], impl="IN/AAAA"))
-    add(Spec("CH-A", 1, [F("domain", N(canon_lower=True)), F("address", U16)], classes=(CH,), impl="CH/A"))
+    add(Spec("CH-A", 1, [F("domain", N()), F("address", U16)], classes=(CH,), impl="CH/A"))
     for nm, t, low in (("NS", 2, True), ("CNAME", 5, True), ("PTR", 12, True), ("DNAME", 39, True)):
         add(Spec(nm, t, [F("target", N(canon_lower=low))], classes=ANYC, impl="ANY/" + nm))
     add(Spec("NSAP-PTR", 23, [F("target", N())], impl="IN/NSAP_PTR"))
